@@ -486,9 +486,39 @@ def chunks_of(lst, n):
     return [lst[i:i + k] for i in range(0, len(lst), k)]
 
 
+_WARM = [False]
+
+
+def warm_numba():
+    """Compile strax's commonly used numba functions once in the parent so that forked workers inherit them."""
+    if _WARM[0]:
+        return
+    _WARM[0] = True
+    try:
+        import numpy as np
+        import strax
+        dt = np.dtype(strax.time_fields)
+        a = np.zeros(3, dt)
+        a["time"], a["endtime"] = [0, 2, 5], [1, 4, 6]
+        ch = strax.Chunk(data_type="x", data_kind="x", dtype=dt, run_id="0", start=0, end=8, data=a, target_size_mb=1e-5)
+        ch.split(3, allow_early_split=True)
+        ch.split(2, allow_early_split=False)
+        rc = strax.Rechunker(rechunk=True, run_id="0")
+        rc.receive(ch)
+        rc.flush()
+        strax.diff(a)
+        strax.endtime(a)
+        strax.fully_contained_in(a, a[:1])
+        strax.touching_windows(a, a[:1])
+    except Exception:
+        pass
+
+
 def pmap(fn, items, procs=None):
     """fork-based parallel map over picklable items (fn must be top-level or closure-free-safe under fork)."""
     import multiprocessing as mp
+    if "strax" in sys.modules:
+        warm_numba()
     procs = procs or NCPU
     if procs <= 1 or len(items) <= 1:
         return [fn(x) for x in items]
